@@ -227,7 +227,7 @@ func TestC12Flat(t *testing.T) {
 			g.Prefixes = []string{"", "p", "q"}
 		}
 		p := flatWithPreds(g, rt, xref.NodeSet{ctx})
-		l := &harness.Live{Property: "C12", Check: "C12/flat-order", Doc: doc, Ctx: ctx, AST: p, Expr: xast.Render(p), Flavour: flavourOf(rt)}
+		l := &harness.Live{Property: "C12", Check: "C12/flat-order", Doc: doc, Ctx: ctx, AST: p, Expr: renderDrawn(rt, p), Flavour: flavourOf(rt)}
 		ids, f := oracleC12Flat(l)
 		if f != nil {
 			if inconclusive(uC12Flat, f) {
